@@ -351,10 +351,10 @@ Proof.
   (* TRPI / TRP, BCI *)
   fold (plus_options h). destruct (plus_options_rps h) as [R1 R2]. rewrite R1, R2.
   seg (trpi_seg h); [exact Htrp|]. seg (bci_seg h).
-  (* RPRP is needed only if the previous picture's format differs *)
-  assert (Hp : (match prev, plus_format h with Some p9, Some _ => negb (format_eqb (format p9) (plus_format h)) | _, _ => false end) = false).
-  { destruct prev as [p9|]; [|reflexivity]. cbn in Hprev. rewrite Hprev. destruct (plus_format h); reflexivity. }
-  rewrite Hp. cbn [orb bind].
+  (* RPRP is needed only if the previous header transmitted a different format *)
+  match goal with |- context [if false || ?X then Err EUnimplemented else _] =>
+    replace X with false by (symmetry; exact (rprp_not_needed _ _ Hprev)) end.
+  cbn [orb bind].
   rdn.
   (* TRB / DBQUANT *)
   fold (plus_type (p_type h)).
